@@ -36,6 +36,10 @@ type c19Scn struct {
 	Ctor     string              `json:"ctor,omitempty"`
 	Kind     string              `json:"kind,omitempty"`
 	Reject   map[string]string   `json:"reject,omitempty"`
+	// kind "edge": a port at another transport's default, a transport type, and which of the two options comes first
+	Port      int    `json:"port,omitempty"`
+	Transport string `json:"transport,omitempty"`
+	First     string `json:"first,omitempty"`
 }
 
 type c19Env struct {
@@ -667,9 +671,108 @@ func c19(_ []string) error {
 				continue
 			}
 
+			if s.Kind == "edge" {
+				emit(c19Edge(s, ctor))
+
+				continue
+			}
+
 			emit(c19Run(e, s, ctor))
 		}
 
 		return nil
 	})
+}
+
+// c19Edge: Options!EdgeScn - the port given is the port held, whatever transport type is asked for and whichever option comes first.
+func c19Edge(s *c19Scn, ctor string) verdict {
+	v := verdict{ID: s.ID, Variant: ctor, OK: true, Nontrivial: true}
+	o := []util.Option{options.WithPort(s.Port), options.WithTransportType(s.Transport)}
+
+	if s.First == "type" {
+		o[0], o[1] = o[1], o[0]
+	}
+
+	var tr *transport.Transport
+
+	var err error
+
+	var pan interface{}
+
+	func() {
+		defer func() { pan = recover() }()
+
+		switch ctor {
+		case "g":
+			var g *generic.Driver
+
+			g, err = generic.NewDriver("h", o...)
+			if err == nil {
+				tr = g.Transport
+			}
+		case "n":
+			var n *network.Driver
+
+			n, err = network.NewDriver("h", append([]util.Option{options.WithPrivilegeLevels(stdLevels()), options.WithDefaultDesiredPriv("configuration")}, o...)...)
+			if err == nil {
+				tr = n.Transport
+			}
+		case "c":
+			var c *netconf.Driver
+
+			c, err = netconf.NewDriver("h", o...)
+			if err == nil {
+				tr = c.Transport
+			}
+		case "p", "q":
+			// the port stands in the definition's options block, the transport type is the user's; for "q" both are the user's
+			y := "---\nplatform-type: 'verifg'\ndefault:\n  driver-type: 'generic'\n"
+			user := o
+
+			if ctor == "p" {
+				y += fmt.Sprintf("  options:\n    - option: port\n      value: %d\n", s.Port)
+				user = []util.Option{options.WithTransportType(s.Transport)}
+			}
+
+			var p *platform.Platform
+
+			p, err = platform.NewPlatform([]byte(y), "h", user...)
+			if err == nil {
+				var g *generic.Driver
+
+				g, err = p.GetGenericDriver()
+				if err == nil {
+					tr = g.Transport
+				}
+			}
+		}
+	}()
+
+	kind := ""
+
+	if tr != nil {
+		switch tr.Impl.(type) {
+		case *transport.System:
+			kind = "system"
+		case *transport.Standard:
+			kind = "standard"
+		case *transport.Telnet:
+			kind = "telnet"
+		default:
+			kind = fmt.Sprintf("%T", tr.Impl)
+		}
+	}
+
+	switch {
+	case pan != nil:
+		fail(&v, "C19:"+ctor+":panic", "constructor panicked for port %d with transport %s: %v", s.Port, s.Transport, pan)
+	case err != nil:
+		fail(&v, "C19:"+ctor+":error:"+errClass(err), "constructor failed for port %d with transport %s: %v", s.Port, s.Transport, err)
+	case tr.Args.Port != s.Port:
+		fail(&v, fmt.Sprintf("C19:%s:A.Port:edge-value-%d-with-%s", ctor, s.Port, s.Transport), "port %d given (%s first) with transport %s, the transport holds %d", s.Port, s.First, s.Transport, tr.Args.Port)
+	case kind != s.Transport:
+		fail(&v, "C19:"+ctor+":T.Type:"+s.Transport, "transport type %s asked for, %s built", s.Transport, kind)
+	}
+
+	return v
 }
